@@ -290,11 +290,19 @@ diskdump_bmp_cleanup(const kdump_bmp_t *bmp)
 	shared_decref(shared);
 }
 
+static void
+diskdump_bmp_cleanup_locked(const kdump_bmp_t *bmp)
+{
+	struct kdump_shared *shared = bmp->priv;
+	shared_decref_locked(shared);
+}
+
 static const struct kdump_bmp_ops diskdump_bmp_ops = {
 	.get_bits = diskdump_get_bits,
 	.find_set = diskdump_find_set,
 	.find_clear = diskdump_find_clear,
 	.cleanup = diskdump_bmp_cleanup,
+	.cleanup_locked = diskdump_bmp_cleanup_locked,
 };
 
 static kdump_status
@@ -348,6 +356,7 @@ static const struct kdump_bmp_ops mem_pagemap_ops = {
 	.find_set = mem_pagemap_find_set,
 	.find_clear = mem_pagemap_find_clear,
 	.cleanup = diskdump_bmp_cleanup,
+	.cleanup_locked = diskdump_bmp_cleanup_locked,
 };
 
 static kdump_status
